@@ -978,6 +978,14 @@ PropHolds(s) ==
       \* C01: a caller told "success" has been sent a body that the runtime posted
       OkHasBody |->
           \A k \in DOMAIN s.iv : (s.iv[k].m = "ret" /\ s.iv[k].out = "") => s.iv[k].got,
+      \* C04, C09: an INVOKE or SHUTDOWN event is only ever answered to an extension whose current registration
+      \* subscribed to it
+      EventsOnlyToSubscribers |->
+          \A c \in DOMAIN s.calls :
+              (s.calls[c].st = "done" /\ s.calls[c].who \in Agents(s) /\ s.calls[c].api = "next"
+                 /\ s.calls[c].agen = s.ag[s.calls[c].who].rid /\ s.calls[c].res.status = 200
+                 /\ s.calls[c].res.kind \in {"INVOKE", "SHUTDOWN"})
+              => s.calls[c].res.kind \in s.ag[s.calls[c].who].subs,
       \* C08: once a reset is over and nothing of the old generation is still running, nothing of it is left
       ResetIsFresh |->
           IdleAfterReset(s) =>
